@@ -22,7 +22,7 @@ def host_is_trusted(hostname: str | None, trusted_list: t.Iterable[str]) -> bool
 
     try:
         hostname = hostname.partition(":")[0].encode("idna").decode("ascii")
-    except UnicodeEncodeError:
+    except UnicodeError:
         return False
 
     if isinstance(trusted_list, str):
@@ -37,7 +37,7 @@ def host_is_trusted(hostname: str | None, trusted_list: t.Iterable[str]) -> bool
 
         try:
             ref = ref.partition(":")[0].encode("idna").decode("ascii")
-        except UnicodeEncodeError:
+        except UnicodeError:
             return False
 
         if ref == hostname or (suffix_match and hostname.endswith(f".{ref}")):
